@@ -307,9 +307,21 @@ func genCase(t *rapid.T) Case {
 				}
 			}
 			m := methods[rapid.IntRange(0, len(methods)-1).Draw(t, "rm")]
+			if len(regs) > 0 && rapid.IntRange(0, 5).Draw(t, "twin") == 0 {
+				h := regs[rapid.IntRange(0, len(regs)-1).Draw(t, "twinof")]
+				td := rt.Deriv(h.r)
+				n := len(td.Segs)
+				if len(td.Segs[n-1].Elems) > 0 {
+					cp := append([]model.Seg(nil), td.Segs...)
+					cp[n-1] = model.Seg{Elems: cp[n-1].Elems, Optional: !cp[n-1].Optional}
+					d, m = model.Route{Segs: cp}, h.m
+				}
+			}
 			ok := true
 			for _, mm := range model.ExpandMethod(m) {
-				if v, _ := g.Check(mm, d); v != model.MustAccept {
+				// "/a/?b" next to "/a/b" is not classified by C08 (EITHER) but the
+				// router accepts it, so it belongs to the histories C10 speaks about
+				if v, why := g.Check(mm, d); v != model.MustAccept && why != "optional-twin" {
 					ok = false
 				}
 			}
@@ -378,6 +390,7 @@ func TestPinned(t *testing.T) {
 	cases := []Case{
 		{Ops: []Op{{K: "reg", M: "GET", R: "/q/?r"}, {K: "req", M: "GET", P: "/q/?r"}, {K: "req", M: "GET", P: "/q/r"}, {K: "req", M: "GET", P: "/q"}}},
 		{Ops: []Op{{K: "reg", M: "GET", R: "/a"}, {K: "reg", M: "GET", R: "/{x}"}, {K: "hdr", I: 0, H: []string{"X-A", "1"}}, {K: "req", M: "GET", P: "/a"}, {K: "req", M: "GET", P: "/a", Q: [][2]string{{"X-A", "1"}}}, {K: "hdr", I: 0, H: nil}, {K: "req", M: "GET", P: "/a"}}},
+		{Ops: []Op{{K: "reg", M: "GET", R: "/users/?settings"}, {K: "reg", M: "GET", R: "/users/settings"}, {K: "req", M: "GET", P: "/users/settings"}, {K: "req", M: "GET", P: "//users/settings"}}},
 		{Ops: []Op{{K: "reg", M: "*", R: "/a/"}, {K: "req", M: "PUT", P: "/a/"}, {K: "req", M: "PUT", P: "/a"}, {K: "req", M: "PUT", P: "//a/"}}},
 	}
 	for _, c := range cases {
